@@ -256,6 +256,9 @@ def judge_equivalence(res, tag, info, in_cond, out_ast, points, digits, need_pos
                     res.bad(f"C13/{tag}/not-equivalent", {**info, "point": {a: str(b) for a, b in p.items()}, "input_delta": str(din), "output_delta": str(dout)})
                     return
                 continue
+            if abs(dout) <= (tol + tol_in) * 4:
+                # the point happens to sit on the (rounded) output's zero set: no scale can be read off here
+                continue
             k = dout / din
             k_err = (tol + tol_in * abs(k)) / abs(din)          # the scale itself is only known up to the rounding at this point
             if abs(k) < Fraction(1, 1000) / coef_mass(in_cond) or (need_positive and k < 0):
